@@ -264,6 +264,29 @@ class ClassView:
                     self.bad(p if p is not None else n, "bare use of self that I do not understand (aliasing?)")
         return sorted(assigned), sorted(mutated), sorted(escapes)
 
+    def other_calls(self, roots, helper_attr):
+        """calls on attribute objects in the closure of `roots` that are NOT followed: `<attr>.<method>` for a method call on
+        `self.<attr>` / an element of it, `<attr>()` for a call of the attribute (or of an element) itself; the helper attribute
+        whose class IS followed (lifecycle_helpers) is left out"""
+        out = set()
+        for mn in self.closure(roots):
+            for n in ast.walk(self.methods[mn]):
+                if not isinstance(n, ast.Call):
+                    continue
+                f = n.func
+                if isinstance(f, ast.Attribute) and _is_self(f.value):
+                    if f.attr not in self.methods:
+                        out.add(f.attr + "()")
+                elif isinstance(f, ast.Attribute):
+                    r = _root_self_attr(f)
+                    if r is not None and r != helper_attr:
+                        out.add(f"{r}.{f.attr}")
+                elif isinstance(f, ast.Subscript):
+                    r = _self_attr(f.value) or _root_self_attr(f)
+                    if r is not None and r != helper_attr:
+                        out.add(r + "()")
+        return sorted(out)
+
     def validate_resets(self, roots):
         """methods in the closure of `roots` that call `validate_data(self, ..)` without the literal `reset=False`: sklearn's
         default `reset=True` REWRITES `n_features_in_` / `feature_names_in_` of the estimator from the array it is given"""
@@ -997,7 +1020,8 @@ def analyse(repo):
                          fitReceivers=cv.receivers(roots), fitHistoryReads=hist, initDerivedReads=initd,
                          initDerivedDeps=cv.init_derived(),
                          fitDefinitelyAssigned=cv.definitely_assigned("fit") if tag != "LAG" else [],
-                         predictReads=cv.fitted_reads(pmeth), predictValidateResets=cv.validate_resets(pmeth))
+                         predictReads=cv.fitted_reads(pmeth), predictValidateResets=cv.validate_resets(pmeth),
+                         predictOtherCalls=cv.other_calls(pmeth, lifecycle_helpers.HELPERS.get(tag, ("",))[0]))
     latch = _moment_latch(repo)
     cons = {}
     for tag in ("EG", "GS"):
@@ -1055,6 +1079,9 @@ def lifecycle_src(repo):
                  "`self.<name>` rebound or stored into in the closure of the prediction entry points")
     src += table("predictSelfEscapes", "List String", lambda d: slist(d["predictSelfEscapes"]),
                  "callees that receive the bare `self` in the closure of the prediction entry points")
+    src += table("predictOtherCalls", "List String", lambda d: slist(d["predictOtherCalls"]),
+                 "calls on attribute objects in that closure that are NOT followed (`<attr>.<method>`, `<attr>()`): the wrapped "
+                 "estimators, the label transformer, the predictor function — the helper attribute of `helperAttr` is followed instead")
     src += table("predictValidateResets", "List String", lambda d: slist(d["predictValidateResets"]),
                  "methods of that closure that call `validate_data(self, ..)` WITHOUT `reset=False` (sklearn then rewrites "
                  "`n_features_in_` / `feature_names_in_` of the estimator from the array to predict on)")
